@@ -572,6 +572,26 @@ pub fn apply_op<T: StShape>(b: GenericPurlBuilder<T>, op: &Value) -> Result<Gene
     Ok(match name {
         "with_package_type" => b.with_package_type(T::from_st(&a1).expect("type of the universe")),
         "with_namespace" => b.with_namespace(a1),
+        "edit_type" => {
+            let mut b = b;
+            b.package_type = T::from_st(&a1).expect("type of the universe");
+            b
+        },
+        "edit_ns" => {
+            let mut b = b;
+            b.parts.namespace = a1.into();
+            b
+        },
+        "edit_name" => {
+            let mut b = b;
+            b.parts.name = a1.into();
+            b
+        },
+        "edit_qual" => {
+            let mut b = b;
+            let _ = b.parts.qualifiers.insert(a1, from_cps(&op[2]));
+            b
+        },
         "without_namespace" => b.without_namespace(),
         "with_name" => b.with_name(a1),
         "with_version" => b.with_version(a1),
@@ -827,6 +847,16 @@ pub fn apply_qop(q: &mut purl::Qualifiers, op: &Value) -> Value {
                 key != k.as_str()
             });
             json!({"calls": calls})
+        },
+        "count_keys_lt" => {
+            let n = q.iter().filter(|(key, _)| **key < *k.as_str()).count();
+            let le = q.iter().filter(|(key, _)| **key <= *k.as_str()).count();
+            let eq = q.iter().filter(|(key, _)| **key == *k.as_str()).count();
+            if le != n + eq {
+                json!({"disagree": "QualifierKey <, <=, =="})
+            } else {
+                json!({"n": n})
+            }
         },
         "retain_mut_set" => {
             let mut calls = 0;
